@@ -104,6 +104,8 @@ def materialise_options(opts):
     for key, val in list(out.items()):
         if isinstance(val, dict) and val.get("__callable__") == "lcb_schedule":
             out[key] = ("acq_LCB", lcb_schedule(val["k"]))
+        elif isinstance(val, dict) and val.get("__callable__") == "lcb_const":
+            out[key] = ("acq_LCB", float(val["v"]))  # a fixed LCB parameter (acq_fcn_lcb: "sqrt_beta: float")
     return out
 
 
